@@ -30,7 +30,9 @@ def str_ord(s):
 
 
 LETTERS = 'abcdefghijklmnopqrstuvwxyzABCDEFGHIJKLMNOPQRSTUVWXYZ0123456789_-./'
-MULTI = ['é', 'ß', 'λ', 'я', '中', '語', 'ñ']
+MULTI = ['é', 'ß', 'λ', 'я', '中', '語', 'ñ',
+         # text that is valid UTF-8 but not NFC/NFKC-stable: decomposed accents, conjoining jamo, singletons, ligatures
+         'e\u0301', 'o\u0308', '\u1100\u1161', '\u212b', '\u2126', '\ufb01', '\u00a0', '\u2003']
 INTERESTING = [0, 1, 2, 3, 7, 8, 0x10, 0x1f, 0x7f, 0x80, 0xff, 0x100, 0xffff, 0x10000, 0x7fffffff, 0x80000000,
                0xffffffff, 0x100000000, 0x7fffffffffffffff, 0x8000000000000000, 0xffffffffffffffff]
 
